@@ -395,8 +395,10 @@ class Visitor:
                     kind=kind,
                     annotation=safe_get_annotation(annotation, parent=self.current),
                     default=default
-                    if isinstance(default, str)
-                    else safe_get_expression(default, parent=self.current, parse_strings=False),
+                    if isinstance(default, str) or default is None
+                    # A default that cannot be turned into an expression is kept as source code:
+                    # without a default the parameter would look required.
+                    else safe_get_expression(default, parent=self.current, parse_strings=False) or ast.unparse(default),
                 )
                 for name, annotation, kind, default in get_parameters(node.args)
             ],
